@@ -43,6 +43,8 @@ type c13Case struct {
 	// library, nowhere); 1 = the real in-process cron (never started:
 	// only its parsing and book-keeping is reached) behind the state hooks.
 	Cron int `json:"cron,omitempty"`
+	// Check: the System insists that locations are created first.
+	Check bool `json:"check,omitempty"`
 	// More hostile steps applied after the first one (so that, e.g., a
 	// stored hostile fact meets a hostile pattern).
 	More []c13Step `json:"more,omitempty"`
@@ -54,7 +56,7 @@ type c13Step struct {
 	Doc  M      `json:"doc"`
 }
 
-var c13Reserved = []string{"rule", "when", "pattern", "schedule", "expires", "ttl", "deleteWith", "id", "_id", "!p", "!q", "!disabled", "!enabled", "!parents", "!writeKey",
+var c13Reserved = []string{"rule", "when", "pattern", "schedule", "expires", "ttl", "deleteWith", "id", "_id", "!p", "!q", "!createdAt", "!readKey", "!disabled", "!enabled", "!parents", "!writeKey",
 	"actions", "action", "condition", "policies", "code", "endpoint", "opts", "libraries", "location", "locations", "and", "or", "not", "shortCircuit", "trigger!", "evaluate!", "once", "props", "x!"}
 var c13Strings = []string{"x", "", "?", "?x", "??x", "?<n", "null", "S_x", "F_1", "B_true", "!", "!a.b", "+1s", "* * * * * * *", "javascript", "2100-01-01T00:00:00Z", "10h", "(((",
 	"5-1 * * * *", "* 5-1 * * *", "59-0 * * * * * *", "* * * * * * 1999", "*/0 * * * *", "@yearly", "59-@yearly", "!2100-01-01T00:00:00Z", "!1999-01-01T00:00:00Z", "!x", "+1x", "+-1s", "1-2-3 * * * *", "* * 31 2 *", "60 * * * *", "* * * * 7-0", "L * * * *", "* * L * *", "* * 1W * *", "* * * * 5#9", "0 0 29 2 * * 2099"}
@@ -114,6 +116,7 @@ func genC13(t *rapid.T) c13Case {
 	c.Role = rapid.SampledFrom([]string{"fact", "fact", "rule", "rule", "pattern", "rulesearch", "query", "event", "id"}).Draw(t, "role")
 	c.Id = rapid.SampledFrom([]string{"", "h1", "canary0", "!x", "!canary0.disabled", "?x", strings.Repeat("i", 1100)}).Draw(t, "id")
 	c.Cron = rapid.IntRange(0, 1).Draw(t, "cron")
+	c.Check = rapid.Bool().Draw(t, "check-existence")
 	// '?'-strings as *data* send the matcher dependency into unbounded
 	// recursion (known finding); they are generated only in pattern-like
 	// roles unless the finding is switched off
@@ -131,7 +134,7 @@ func genC13(t *rapid.T) c13Case {
 			c.Doc = r
 		case "fact":
 			f := M{"a": "x"}
-			k := rapid.SampledFrom([]string{"rule", "expires", "ttl", "deleteWith", "id", "!p", "_id"}).Draw(t, "corrupt")
+			k := rapid.SampledFrom([]string{"rule", "expires", "ttl", "deleteWith", "id", "!p", "_id", "!createdAt", "!parents", "!disabled"}).Draw(t, "corrupt")
 			f[k] = c13Value(t, 2, "corrupt."+k, qvars)
 			c.Doc = f
 		case "query":
@@ -264,8 +267,8 @@ func callGuard(o *vlib.Outcome, what string, f func()) bool {
 }
 
 type c13Target interface {
-	addFact(id string, doc M) error
-	addRule(id string, doc M) error
+	addFact(id string, doc M) (string, error)
+	addRule(id string, doc M) (string, error)
 	remRule(id string) error
 	remFact(id string) error
 	getFact(id string) (string, error)
@@ -290,13 +293,11 @@ func normSearch(srs *core.SearchResults, err error) (string, error) {
 	return strings.Join(rows, ","), nil
 }
 
-func (l c13Lib) addFact(id string, doc M) error {
-	_, err := l.loc.AddFact(newCtx(), id, core.Map(doc))
-	return err
+func (l c13Lib) addFact(id string, doc M) (string, error) {
+	return l.loc.AddFact(newCtx(), id, core.Map(doc))
 }
-func (l c13Lib) addRule(id string, doc M) error {
-	_, err := l.loc.AddRule(newCtx(), id, core.Map(doc))
-	return err
+func (l c13Lib) addRule(id string, doc M) (string, error) {
+	return l.loc.AddRule(newCtx(), id, core.Map(doc))
 }
 func (l c13Lib) remRule(id string) error { _, err := l.loc.RemRule(newCtx(), id); return err }
 func (l c13Lib) remFact(id string) error { _, err := l.loc.RemFact(newCtx(), id); return err }
@@ -362,13 +363,11 @@ type c13Sys struct {
 
 func js(m M) string { b, _ := json.Marshal(m); return string(b) }
 
-func (l c13Sys) addFact(id string, doc M) error {
-	_, err := l.s.AddFact(newCtx(), l.loc, id, js(doc))
-	return err
+func (l c13Sys) addFact(id string, doc M) (string, error) {
+	return l.s.AddFact(newCtx(), l.loc, id, js(doc))
 }
-func (l c13Sys) addRule(id string, doc M) error {
-	_, err := l.s.AddRule(newCtx(), l.loc, id, js(doc))
-	return err
+func (l c13Sys) addRule(id string, doc M) (string, error) {
+	return l.s.AddRule(newCtx(), l.loc, id, js(doc))
 }
 func (l c13Sys) remRule(id string) error { _, err := l.s.RemRule(newCtx(), l.loc, id); return err }
 func (l c13Sys) remFact(id string) error { _, err := l.s.RemFact(newCtx(), l.loc, id); return err }
@@ -432,6 +431,7 @@ func c13NewTarget(c c13Case, o *vlib.Outcome) c13Target {
 	if c.Level == "sys" {
 		conf := sys.ExampleConfig()
 		conf.UnindexedState = c.Kind == "linear"
+		conf.CheckExistence = c.Check
 		cont := sys.ExampleSystemControl()
 		cont.Timing = false
 		cont.LocationTTL = sys.Forever
@@ -446,6 +446,13 @@ func c13NewTarget(c c13Case, o *vlib.Outcome) c13Target {
 		if err != nil {
 			o.Fail("NEWSYSTEM", "%v", err)
 			return nil
+		}
+		if c.Check {
+			o.Label("check-existence")
+			if _, err := s.CreateLocation(newCtx(), "L"); err != nil {
+				o.Fail("NEWSYSTEM", "CreateLocation: %v", err)
+				return nil
+			}
 		}
 		return c13Sys{s, "L"}
 	}
@@ -477,7 +484,7 @@ func c13Canary(o *vlib.Outcome, tg c13Target, phase string) []string {
 		what string
 		f    func() (string, error)
 	}{
-		{"AddFact canary1", func() (string, error) { return "", tg.addFact("canary1", M{"canary": "c1"}) }},
+		{"AddFact canary1", func() (string, error) { _, err := tg.addFact("canary1", M{"canary": "c1"}); return "", err }},
 		{"GetFact canary1", func() (string, error) { return tg.getFact("canary1") }},
 		{"GetFact canary0", func() (string, error) { return tg.getFact("canary0") }},
 		{"GetFact canaryDep", func() (string, error) { return tg.getFact("canaryDep") }},
@@ -502,15 +509,16 @@ func c13Canary(o *vlib.Outcome, tg c13Target, phase string) []string {
 }
 
 func c13Setup(tg c13Target) error {
-	if err := tg.addFact("canary0", M{"canary": "c0"}); err != nil {
+	if _, err := tg.addFact("canary0", M{"canary": "c0"}); err != nil {
 		return err
 	}
 	// something that depends on the canary (and, like the properties of a
 	// location, on nothing else)
-	if err := tg.addFact("canaryDep", M{"canary": "dep", "deleteWith": A{"canary0"}}); err != nil {
+	if _, err := tg.addFact("canaryDep", M{"canary": "dep", "deleteWith": A{"canary0"}}); err != nil {
 		return err
 	}
-	return tg.addRule("canaryRule", M{"when": M{"pattern": M{"canaryEvent": "?v"}}, "condition": M{"pattern": M{"canary": "c0"}}, "action": M{"code": "'canary-fired'"}})
+	_, err := tg.addRule("canaryRule", M{"when": M{"pattern": M{"canaryEvent": "?v"}}, "condition": M{"pattern": M{"canary": "c0"}}, "action": M{"code": "'canary-fired'"}})
+	return err
 }
 
 func nest(doc interface{}, n int) interface{} {
@@ -575,6 +583,7 @@ func runC13(c c13Case) *vlib.Outcome {
 	var toRemove []string
 	for si, st := range steps {
 		var err error
+		var gotId string
 		sdesc := desc
 		if si > 0 {
 			sdesc = fmt.Sprintf("%s; then step %d %s id %q doc %s", desc, si, st.Role, st.Id, truncate(vlib.JSON(st.Doc), 300))
@@ -587,9 +596,9 @@ func runC13(c c13Case) *vlib.Outcome {
 		ok := callGuard(o, sdesc, func() {
 			switch st.Role {
 			case "fact":
-				err = tg.addFact(st.Id, sdoc)
+				gotId, err = tg.addFact(st.Id, sdoc)
 			case "rule":
-				err = tg.addRule(st.Id, sdoc)
+				gotId, err = tg.addRule(st.Id, sdoc)
 			case "pattern":
 				_, err = tg.search(sdoc)
 			case "rulesearch":
@@ -613,19 +622,28 @@ func runC13(c c13Case) *vlib.Outcome {
 			o.Label("rejected-" + st.Role)
 		}
 		if err == nil && (st.Role == "fact" || st.Role == "rule") {
-			if st.Id == "canary0" || st.Id == "" || strings.HasPrefix(st.Id, "!") || hasBangKey(sdoc) {
-				// overwrote the canary, generated id or property
-				// fact: not comparable with the twin
+			_, wk := sdoc["!writeKey"]
+			_, rk := sdoc["!readKey"]
+			if _, en := sdoc["!enabled"]; en {
+				// (the location's off switch; an off location
+				// refuses everything, the removal included)
+				wk = true
+			}
+			if gotId == "canary0" || gotId == "canaryDep" || gotId == "canaryRule" || gotId == "" || wk || rk {
+				// overwrote the canary or locked the location:
+				// not comparable with the twin
 				comparable = false
 			} else {
+				// (generated ids and the canonical ids of
+				// property facts are what the call returned)
 				dup := false
 				for _, x := range toRemove {
-					if x == st.Id {
+					if x == gotId {
 						dup = true
 					}
 				}
 				if !dup {
-					toRemove = append(toRemove, st.Id)
+					toRemove = append(toRemove, gotId)
 				}
 			}
 		}
@@ -652,6 +670,18 @@ func runC13(c c13Case) *vlib.Outcome {
 		}
 	}
 	accepted := len(toRemove) > 0
+	if s, is := tg.(c13Sys); is && c.Check {
+		// (the hostile item may have been the location's creation
+		// marker, which went with it)
+		var err error
+		if !callGuard(o, "CreateLocation after "+desc, func() { _, err = s.s.CreateLocation(newCtx(), s.loc) }) {
+			return o
+		}
+		if err != nil {
+			o.Fail("POISONED", "after %s (accepted=%v) the location cannot be created (again): %v", desc, accepted, err)
+			return o
+		}
+	}
 	got := c13Canary(o, tg, "after "+desc+":")
 	if o.Failed() {
 		return o
